@@ -9,8 +9,10 @@ VERIF = os.path.dirname(os.path.dirname(os.path.abspath(__file__)))
 
 def main():
     old = {}
-    p = os.path.join(VERIF, 'seeded', 'old_checks.log')
-    if os.path.exists(p):
+    for fn in ('old_checks.log', 'old_checks_round2.log', 'old_checks_round3.log'):
+        p = os.path.join(VERIF, 'seeded', fn)
+        if not os.path.exists(p):
+            continue
         for line in open(p):
             m = re.match(r'(\S+) old-check exit=(\d+) violations=(\d+)', line)
             if m:
